@@ -145,7 +145,7 @@ def binOp (op : String) (a b : Val) : Option Val :=
   | "<=" => match a, b with | .int x, .int y => some (.bool (x ≤ y)) | _, _ => none
   | ">" => match a, b with | .int x, .int y => some (.bool (x > y)) | _, _ => none
   | ">=" => match a, b with | .int x, .int y => some (.bool (x ≥ y)) | _, _ => none
-  | "+" => match a, b with | .int x, .int y => some (.int (x + y)) | _, _ => none
+  | "+" => match a, b with | .int x, .int y => some (.int (x + y)) | .str x, .str y => some (.str (x ++ y)) | _, _ => none
   | "-" => match a, b with | .int x, .int y => some (.int (x - y)) | _, _ => none
   | _ => none
 
